@@ -15,6 +15,7 @@ import (
 	"regexp"
 	"sort"
 	"strings"
+	"sync"
 	"testing"
 	"time"
 
@@ -45,6 +46,15 @@ type MemberPlan struct {
 	AfterBoot   int      `json:"afterBoot"`   // > 0: launched that many blocks after the leader's shared data record appeared
 	Pauses      [][2]int `json:"pauses"`      // [from, k]: new-block notifications withheld while from <= height < from+k
 	Cancels     [][2]int `json:"cancels"`     // [b, b2]: context cancelled at height b, fresh run started at height b2
+	Losses      []Loss   `json:"losses"`      // lossy delivery: the k-th submission of a class is acknowledged but never reaches the node
+}
+
+// Loss drops the K-th (1-based) submission of class Cls ("tx:deploy", "tx:register", "tx:designate", "tx:transfer" = notary
+// deposit, "nr:transfer", "nr:designate", "nr:deploy", "nr:candidate", "nr:update", ...) of one member, counted over all its runs
+// of the main phase; co-signatures of other members' notary requests count as submissions of the "nr:" class.
+type Loss struct {
+	Cls string `json:"cls"`
+	K   int    `json:"k"`
 }
 
 // E2EScenario is one end-to-end run.
@@ -89,6 +99,9 @@ type member struct {
 	rej     map[string]int
 	cancels int // how many entries of plan.Cancels were applied
 	paused  bool
+	subm    map[string]int // submissions per class over all runs of the main phase (lossy delivery)
+	lost    int
+	lossy   bool
 }
 
 type world struct {
@@ -152,6 +165,20 @@ func (w *world) prm(i int, bc deploy.Blockchain) deploy.Prm {
 
 func (w *world) launch(m *member) {
 	m.bc = NewMemberBC(w.net.Client())
+	if m.lossy {
+		var mu sync.Mutex
+		m.bc.Drop = func(key string) bool {
+			mu.Lock()
+			defer mu.Unlock()
+			m.subm[key]++
+			for _, l := range m.plan.Losses {
+				if l.Cls == key && l.K == m.subm[key] {
+					return true
+				}
+			}
+			return false
+		}
+	}
 	ctx, cancel := context.WithCancel(context.Background())
 	m.cancel = cancel
 	m.ret = make(chan error, 1)
@@ -175,8 +202,16 @@ func (m *member) counters() (map[string]int, map[string]int) {
 	return s, r
 }
 
+func (m *member) lostNow() int {
+	if m.bc != nil {
+		return m.lost + m.bc.Lost()
+	}
+	return m.lost
+}
+
 func (m *member) retire() {
 	if m.bc != nil {
+		m.lost += m.bc.Lost()
 		cs, cr := m.bc.Counters()
 		addMap(m.sent, cs)
 		addMap(m.rej, cr)
@@ -440,8 +475,9 @@ func (w *world) memRecs() ([]chain.Rec, string) {
 				badSig += v
 			}
 		}
-		out = append(out, chain.Rec{"st": st, "runs": m.runs, "err": m.errText, "sent": s, "rej": r, "d4": d4(s), "badDesignate": badSig})
-		key += fmt.Sprintf("%s/%d/%d;", st, m.runs, badSig)
+		out = append(out, chain.Rec{"st": st, "runs": m.runs, "err": m.errText, "sent": s, "rej": r, "d4": d4(s), "badDesignate": badSig,
+			"lost": m.lostNow()})
+		key += fmt.Sprintf("%s/%d/%d/%d;", st, m.runs, badSig, m.lostNow())
 	}
 	return out, key
 }
@@ -572,7 +608,8 @@ func (w *world) phase(budget int, schedule bool) (why string, lastChange int) {
 		time.Sleep(time.Duration(w.net.BlockMs) * time.Millisecond)
 		w.net.Block()
 		fwNow := w.fundsRefusals()
-		fwHappened := fwNow != w.prevFw
+		_, nnsThere := w.nnsHash()
+		fwHappened := fwNow != w.prevFw && !nnsThere // saving for the first deployment out of the block rewards
 		w.prevFw = fwNow
 		if w.emit("block", nil, false) || fwHappened {
 			lastChange = int(w.net.BC.BlockHeight())
@@ -608,6 +645,9 @@ func TestE2E(t *testing.T) {
 		if sc.Members[i].Cancels == nil {
 			sc.Members[i].Cancels = [][2]int{}
 		}
+		if sc.Members[i].Losses == nil {
+			sc.Members[i].Losses = []Loss{}
+		}
 	}
 	t0 := time.Now()
 	w := &world{t: t, sc: sc, fs: map[string]contracts.Contract{}, nefSum: map[string]uint32{}, logDir: os.Getenv("VERIF_E2E_LOGDIR"), bootAt: -1}
@@ -625,7 +665,8 @@ func TestE2E(t *testing.T) {
 	w.cmtAcc = hash.Hash160(cmtScript)
 	w.valAcc = w.net.ValidatorAccount(0).ScriptHash()
 	for i := 0; i < sc.N; i++ {
-		w.members = append(w.members, &member{idx: i, plan: sc.Members[i], state: "off", sent: map[string]int{}, rej: map[string]int{}})
+		w.members = append(w.members, &member{idx: i, plan: sc.Members[i], state: "off", sent: map[string]int{}, rej: map[string]int{},
+			subm: map[string]int{}, lossy: len(sc.Members[i].Losses) > 0})
 	}
 	w.emit("reset", chain.Rec{"kind": "e2e", "seed": sc.Seed, "src": sc.Src, "plan": sc.Members, "budget": sc.Budget,
 		"cmtIsVal": w.cmtAcc.Equals(w.valAcc), "res": ""}, true)
@@ -645,13 +686,17 @@ func TestE2E(t *testing.T) {
 		}
 	}
 	h := int(w.net.BC.BlockHeight())
-	w.emit("end", chain.Rec{"why": why, "done": why == "done", "goal": sc.Goal, "stag": h - lastChange, "absent": absent,
+	lostTotal := 0
+	for _, m := range w.members {
+		lostTotal += m.lostNow()
+	}
+	w.emit("end", chain.Rec{"why": why, "done": why == "done", "goal": sc.Goal, "stag": h - lastChange, "absent": absent, "lostTotal": lostTotal,
 		"notaryOk": w.notaryDesignated(), "badBlocks": w.net.BadBlk, "wall": int(time.Since(t0).Seconds())}, true)
-	fmt.Printf("E2E n=%d src=%s why=%s height=%d stag=%d wall=%.1fs\n", sc.N, sc.Src, why, h, h-lastChange, time.Since(t0).Seconds())
+	fmt.Printf("E2E n=%d src=%s why=%s height=%d stag=%d lost=%d wall=%.1fs\n", sc.N, sc.Src, why, h, h-lastChange, lostTotal, time.Since(t0).Seconds())
 
 	if why == "done" && sc.Rerun && sc.Goal == "all" {
 		for _, m := range w.members {
-			m.state, m.runs, m.sent, m.rej, m.errText = "off", 0, map[string]int{}, map[string]int{}, ""
+			m.state, m.runs, m.sent, m.rej, m.errText, m.lossy, m.lost = "off", 0, map[string]int{}, map[string]int{}, "", false, 0
 		}
 		why2, lc := w.phase(rerunBudget, false)
 		h := int(w.net.BC.BlockHeight())
